@@ -756,6 +756,64 @@ def run(ctx):
                 corr_fail("model result depends on the argsort tie order (numpy's answer vs stable order)",
                           dict(payload, request_numpy_order=rw, request_stable=rs_, model_numpy_order=a, model_stable=b))
 
+    # ------------------------------------------------------------------ E: the largest blocks that must still be exact (11, 12)
+    def perm_float(M):
+        """Glynn's formula vectorised in float64 (accurate to ~1e-12 relative for these sizes)."""
+        M = np.asarray(M, dtype=float)
+        k = M.shape[0]
+        if k == 0:
+            return 1.0
+        signs = np.array(list(itertools.product([1.0], *([[1.0, -1.0]] * (k - 1)))))
+        return float(np.sum(np.prod(signs, axis=1) * np.prod(signs @ M, axis=1)) / 2 ** (k - 1))
+
+    big_cases = 0
+    for m in (11, 12):
+        for rep in range(2 if quick else 4):
+            n = m + 2
+            W = [[0] * n for _ in range(n)]
+            W[0][0] = 1
+            for r in range(1, m + 1):
+                for c in range(1, m + 1):
+                    W[r][c] = rng.randint(1, 6)
+            locks = [0] * (n - 1) + [1]
+            P, exc = real_inf(mk_state(n), W, locks)
+            big_cases += 1
+            ctx.count(("big_block", m, rep), nontrivial=True)
+            ctx.dist(f"big_block:{m}")
+            if P is None:
+                ctx.violation(f"C02 statement fails on the implementation: inf_retis raised {exc} on a full {m}x{m} weighted block",
+                              {"kind": "inf_retis", "W": W, "locks": locks, "offset": 1}, True)
+                continue
+            sub = np.array([row[1:m + 1] for row in W[1:m + 1]], dtype=float)
+            tot = perm_float(sub)
+            worst = 0.0
+            for a in range(m):
+                for b in range(m):
+                    minor = np.delete(np.delete(sub, a, axis=0), b, axis=1)
+                    ref = sub[a, b] * perm_float(minor) / tot
+                    worst = max(worst, abs(float(P[a + 1][b + 1]) - ref))
+            if worst > 1e-6:
+                ctx.violation(f"C02 statement fails on the implementation: a {m}x{m} weighted block differs from the permanent ratios by {worst:.2e} "
+                              f"(blocks up to 12 must be computed exactly)", {"kind": "inf_retis", "W": W, "locks": locks, "offset": 1, "max_abs_err": worst}, True)
+    stats["big_blocks_vs_float_glynn"] = big_cases
+
+    # ------------------------------------------------------------------ F: the P every pick of the real scheduler uses (system level)
+    import repex_runs as RR
+    import sysharness as H
+    sys_cases = [c for c in RR.gen_cases("quick", rng) if c["kind"] in ("single", "random")][: (24 if quick else 80)]
+    nsys = 0
+    for case, (tag, res) in zip(sys_cases, H.run_many(RR.run_case, sys_cases, jobs=14, timeout=900)):
+        ctx.dist("system_runs")
+        if tag != "ok":
+            corr_fail(f"system harness failure: {str(res)[:200]}", {"case": case})
+            continue
+        nsys += res["stats"]["treats"]
+        ctx.count(("system", repr(case)), nontrivial=res["stats"]["treats"] > 0, n=res["stats"]["treats"])
+        if res["C02"]:
+            ctx.violation(f"C02 statement fails on the implementation: {res['C02'][0][:300]}", {"case": case, "problems": res["C02"][:5]}, True)
+            break
+    stats["system_picks_checked_steps"] = nsys
+
     # ------------------------------------------------------------------ observation O1 (outside the property)
     o1 = []
     for Wn in ([[1, 0, 0, 0, 0], [0, 1, 0, 1, 0], [0, 1, 1, 1, 0], [0, 1, 1, 1, 0], [0, 0, 0, 0, 0]],
